@@ -42,9 +42,11 @@ func (f fixedClock) Offset() time.Duration           { return 0 }
 // ---------------------------------------------------------------- scenario = deliveries around one candidate
 
 type delivery struct {
-	blk   *wire.MsgBlock
-	watch bool // the candidate or a descendant: a rule error here is the candidate's verdict
-	hdr   bool // deliver only the header (ProcessBlockHeader)
+	blk    *wire.MsgBlock
+	watch  bool // the candidate or a descendant: a rule error here is the candidate's verdict
+	hdr    bool // deliver only the header (ProcessBlockHeader)
+	faulty bool // one database read below the connect checks fails during this delivery
+	again  bool // a repeated delivery: "already have it" is an admissible answer
 }
 
 type scenario struct {
@@ -115,6 +117,19 @@ func buildScenario(r recipe) *scenario {
 	switch r.ctx {
 	case "tip", "hdr", "restart", "tmpltip":
 		s = scen{n + 1, n, 1, 0, 1, 0}
+	case "fault":
+		// a transient backing-store failure while the reorganisation validates the candidate: the main chain has
+		// one more block, the candidate is its sibling; its child triggers the reorganisation and ONE database read
+		// below the connect checks fails; then the fault is gone, the child is offered again and a grandchild
+		// arrives.  What counts is the state after recovery.
+		main := bs.p.clone()
+		m1 := plainBlock(main, 201, blockSpacing+7)
+		sc.dels = append(sc.dels, delivery{blk: m1})
+		s = scen{n + 3, n + 1, 1, 0, 1, 0}
+	case "faulttip":
+		// the same failure while the candidate itself is checked as an extension of the tip; afterwards a child
+		// arrives (the candidate is then validated on the reorganisation path)
+		s = scen{n + 2, n, 1, 0, 1, 0}
 	case "clock":
 		// the clock moves: a block that is too far in the future now is delivered again two seconds later
 		// (the first rejection must leave no trace)
@@ -297,6 +312,17 @@ func buildScenario(r recipe) *scenario {
 			sc.dels = append(sc.dels, delivery{blk: b, watch: true})
 		}
 		sc.dels = append(sc.dels, delivery{blk: child(), watch: true})
+	case "fault":
+		c1 := child()
+		q := parent.clone()
+		q.apply(sc.cand)
+		q.times[len(q.times)-1] = parent.times[len(parent.times)-1] + blockSpacing
+		q.apply(c1)
+		c2 := plainBlock(q, 302, blockSpacing)
+		sc.dels = append(sc.dels, delivery{blk: sc.cand, watch: true}, delivery{blk: c1, watch: true, faulty: true},
+			delivery{blk: c1, watch: true, again: true}, delivery{blk: c2, watch: true})
+	case "faulttip":
+		sc.dels = append(sc.dels, delivery{blk: sc.cand, watch: true, faulty: true}, delivery{blk: child(), watch: true})
 	case "reorgW":
 		sc.dels = append(sc.dels, delivery{blk: sc.cand, watch: true})
 		q := parent.clone()
@@ -446,6 +472,7 @@ type inst struct {
 	delivered map[chainhash.Hash]bool
 	tip       chainhash.Hash
 	clock     fixedClock
+	fault     faultDB
 }
 
 func (i *inst) close() {
@@ -514,13 +541,14 @@ func newInst(sc *scenario, key string) (*inst, string) {
 		return nil, "err:db"
 	}
 	clock := newClock(sc.v.now())
-	chain, err := blockchain.New(chainConfig(sc, db, p, sc.r.cache, clock))
+	fdb := newFaultDB(db)
+	chain, err := blockchain.New(chainConfig(sc, fdb, p, sc.r.cache, clock))
 	if err != nil {
 		db.Close()
 		os.RemoveAll(dir)
 		return nil, "err:new"
 	}
-	return &inst{key: key, chain: chain, db: db, dir: dir, delivered: map[chainhash.Hash]bool{}, clock: clock}, ""
+	return &inst{key: key, chain: chain, db: db, dir: dir, delivered: map[chainhash.Hash]bool{}, clock: clock, fault: fdb}, ""
 }
 
 var instMu sync.Mutex
@@ -589,7 +617,8 @@ func (in *inst) reopen(sc *scenario) string {
 		return "err:reopen-db"
 	}
 	in.db = db
-	chain, err := blockchain.New(chainConfig(sc, db, p, 1-sc.r.cache, in.clock))
+	in.fault = newFaultDB(db)
+	chain, err := blockchain.New(chainConfig(sc, in.fault, p, 1-sc.r.cache, in.clock))
 	if err != nil {
 		return "err:reopen-chain"
 	}
@@ -735,6 +764,19 @@ func (sc *scenario) runOn(in *inst) (string, bool) {
 				*in.clock.t += int64(sc.nowAdd)
 				_, _, err = chain.ProcessBlock(btcutil.NewBlock(d.blk), blockchain.BFNone)
 				*in.clock.t -= int64(sc.nowAdd)
+			}
+		case d.faulty:
+			in.fault.arm()
+			_, _, err = chain.ProcessBlock(btcutil.NewBlock(d.blk), blockchain.BFNone)
+			if fired := in.fault.disarm(); fired && err != nil {
+				if _, isRule := err.(blockchain.RuleError); !isRule {
+					err = nil // the injected failure surfaced as a non-rule error: admissible, the node retries later
+				}
+			}
+		case d.again:
+			_, _, err = chain.ProcessBlock(btcutil.NewBlock(d.blk), blockchain.BFNone)
+			if re, ok := err.(blockchain.RuleError); ok && re.ErrorCode == blockchain.ErrDuplicateBlock {
+				err = nil
 			}
 		default:
 			_, _, err = chain.ProcessBlock(btcutil.NewBlock(d.blk), blockchain.BFNone)
@@ -966,7 +1008,7 @@ func generate(R *core.Rand, thorough bool, emit func(class string, nontrivial bo
 			emit("par", true, "C01 par "+strings.Join(bodies, " | "))
 		}
 	}()
-	ctxs := []string{"tip", "side", "orphan", "fork", "side2", "tmpl", "orphan2", "orphan3", "hdr", "shuffle", "nopow", "restart", "tmpltip", "reorgX", "reorgY", "reorgZ", "reorgW", "clock", "orphan4", "orphan5"}
+	ctxs := []string{"tip", "side", "orphan", "fork", "side2", "tmpl", "orphan2", "orphan3", "hdr", "shuffle", "nopow", "restart", "tmpltip", "reorgX", "reorgY", "reorgZ", "reorgW", "clock", "orphan4", "orphan5", "fault", "faulttip"}
 	for vi, v := range variants {
 		for _, m := range mutators {
 			if !m.applies(v, v.baseLen()+1) {
@@ -1049,6 +1091,10 @@ func generate(R *core.Rand, thorough bool, emit func(class string, nontrivial bo
 				if !thorough && m.name == "valid" {
 					// delivery-order completeness: the valid candidate among several sibling orphans of one parent
 					picks = append(picks, recipe{vi, "orphan4", R.Intn(2), m.name, a}, recipe{vi, "orphan5", R.Intn(2), m.name, a})
+				}
+				if !thorough && (m.name == "valid" || m.name == "badsig" || m.name == "maturity") && (vi == 0 || vi == 1 || vi == 5) {
+					// recovery from a transient read failure inside the connect checks
+					picks = append(picks, recipe{vi, "fault", 0, m.name, a}, recipe{vi, "faulttip", 0, m.name, a})
 				}
 				if !thorough && m.name == "timenew" {
 					picks = append(picks, recipe{vi, "clock", R.Intn(2), m.name, a}) // the clock context is about this rule
